@@ -467,6 +467,38 @@ def r4_r5_generation(ctx, fields, setters, pairing, roles):
     names = ["piece", "attacked"]
     viol, und, n = judge(live, names, domains, lambda lf: GT.setter_called(lf, "set_halfmove_reset"),
                          lambda e: e["piece"] == c["PAWN"] or e["attacked"] != c["NO_PIECE"])
+    # a flag test on the move under construction (`mv.bits & MASK != 0`) is opaque to the table; but when a setter whose
+    # field lies inside MASK was called earlier on the same path, the test is certainly true there: the path is real
+    def certainly_true(lf):
+        if not lf.opaque:
+            return False
+        for d, cc in lf.opaque:
+            t = d
+            holds_nonzero = None
+            if t[0] == "bin" and t[1] in ("Ne", "Eq") and any(x[0] == "c" and x[1] == 0 for x in (t[2], t[3])):
+                inner = t[3] if t[2][0] == "c" else t[2]
+                want_true = (cc == ("notin", (0,)) or (cc[0] == "in" and 0 not in cc[1])) == (t[1] == "Ne")
+                if inner[0] == "bin" and inner[1] == "BitAnd":
+                    mask = [x[1] for x in (inner[2], inner[3]) if x[0] == "c" and isinstance(x[1], int)]
+                    about_move = any(x[0] == "havoc" or (x[0] == "f" and x[2] == "bits") for x in __import__("inkalint.expr", fromlist=["leaves"]).leaves(inner))
+                    if mask and about_move and want_true:
+                        called = [t_[1].rsplit("::", 1)[-1] for b_, t_ in lf.calls if t_[0] == "call" and t_[1].startswith(MF.MOVE + "set_")]
+                        flag_setters = [s_ for s_ in called if pairing.get(s_) in fields and fields[pairing[s_]]["mask"] & mask[0] and bin(fields[pairing[s_]]["mask"]).count("1") == 1]
+                        holds_nonzero = bool(flag_setters)
+            if not holds_nonzero:
+                return False
+        return True
+    from ..semtable import completions
+    promoted = []
+    for lf in live:
+        if lf.opaque and GT.setter_called(lf, "set_halfmove_reset") and certainly_true(lf):
+            for e in completions(lf.env, names, domains):
+                if not (e["piece"] == c["PAWN"] or e["attacked"] != c["NO_PIECE"]):
+                    promoted.append(({x: e[x] for x in names}, True, False, lf))
+                    break
+    if promoted:
+        und = []
+    viol = viol + promoted[:1]
     wrongly_set = [v for v in viol if v[1]]
     missing = [v for v in viol if not v[1]]
     ctx.ob("C02.R4", "reset-condition", not missing,
